@@ -190,15 +190,16 @@ Proof.
     destruct (do_reads s Pub (import_reads m) OSame) as [s1 o]. cbn [fst snd] in *. subst o.
     split; [exact G1|reflexivity].
   - (* Calc *)
-    destruct (exists_tab s T) eqn:E; [|split; [exact G| destruct T; reflexivity]].
     assert (Hr : forall a n p, In (a, n, p) (calc_reads c) ->
                  lop_in lops09 (LGet T a n) = true /\ (forall s', safe_at safe09 s' (LGet T a n) = true)).
     { intros a n p H. split; [eapply calc_reads_in; [exact I|exact H]|intros; apply lget_safe]. }
-    split; [apply (do_reads_good lops09 [P1] safe09 expect09 R09 CHK09); [exact G|exact Hr]|].
-    destruct T; unfold expected09; try reflexivity.
-    rewrite (do_reads_same lops09 [P1] safe09 expect09 R09 CHK09 GRP09 (calc_reads c) s Pub G E); [reflexivity|].
-    intros a n p H. destruct (Hr a n p H) as [H1 H2]. split; [exact H1|]. split; [exact H2|].
-    intros t oc X. rewrite expect09_get in X. apply outcome_eqb_eq in X. exact X.
+    destruct (exists_tab s T) eqn:E.
+    + split; [apply (do_reads_good lops09 [P1] safe09 expect09 R09 CHK09); [exact G|exact Hr]|].
+      destruct T; unfold expected09; try reflexivity.
+      rewrite (do_reads_same lops09 [P1] safe09 expect09 R09 CHK09 GRP09 (calc_reads c) s Pub G E); [reflexivity|].
+      intros a n p H. destruct (Hr a n p H) as [H1 H2]. split; [exact H1|]. split; [exact H2|].
+      intros t oc X. rewrite expect09_get in X. apply outcome_eqb_eq in X. exact X.
+    + split; [exact G|]. destruct T; [rewrite exists_pub in E; discriminate E|reflexivity|reflexivity].
   - (* Init *)
     split; [apply AG; [exact G|exact I|exact S]|].
     destruct T; unfold expected09; try reflexivity.
@@ -289,7 +290,7 @@ Proof.
   assert (HT' : In T c09_tables) by (destruct T; simpl in HT; try discriminate; simpl; auto).
   apply In_lop_in. unfold lops09. apply in_or_app. right.
   apply in_concat. eexists. split; [apply in_map_iff; exists T; split; [reflexivity|exact HT']|].
-  apply in_map. exact Hk.
+  apply (in_map (fun k0 => LInit k0 T)). exact Hk.
 Qed.
 
 Lemma public_event_ok : forall e, public_event e = true -> ev_in09 e = true /\ forall s, safe_ev09 s e = true.
@@ -300,9 +301,10 @@ Proof.
   - split; [apply known_get; auto|reflexivity].
   - split; reflexivity.
   - split; reflexivity.
-  - apply andb_true_iff in H. destruct H as [H1 H2]. split; [apply known_init; auto|].
-    intros s. simpl. unfold safe_at, safe09. apply negb_true_iff in H2. rewrite H2.
-    rewrite andb_false_r. reflexivity.
+  - apply andb_true_iff in H. destruct H as [H1 H2]. split; [apply known_init; [reflexivity|exact H1]|].
+    intros s. apply negb_true_iff in H2. change (str_in k public_unsafe = false) in H2.
+    change (negb (pending_any (p_g (proj (lgroup (LInit k Pub)) s)) && str_in k public_unsafe) = true).
+    rewrite H2. rewrite andb_false_r. reflexivity.
 Qed.
 
 Lemma public_safe_run : forall h s, forallb public_event h = true -> safe_run09 s h.
